@@ -81,6 +81,33 @@ def run(res):
             doc = src[: m.end()] + clones + src[m.end():]
             pth = w.write("targets_%s.xml" % variant, doc.encode())
             jobs.append(("generate --xml (custom targets sharing values, %s)" % variant, "xmlpath", pth))
+    # two custom target displays whose IDs are different strings for the same number ("100", "0100") and whose values
+    # differ: both give an L10 block for index 100, one replaces the other - the same one in every process
+    if m:
+        c1 = re.sub(r"<ID>\d+</ID>", "<ID>100</ID>", m.group(0))
+        c1 = re.sub(r"<MinimumBrightness>[^<]*<", "<MinimumBrightness>0.01<", c1)
+        c2 = re.sub(r"<ID>\d+</ID>", "<ID>0100</ID>", m.group(0))
+        c2 = re.sub(r"<MinimumBrightness>[^<]*<", "<MinimumBrightness>0.1<", c2)
+        for variant, order in (("a", c1 + c2), ("b", c2 + c1)):
+            pth = w.write("same_index_%s.xml" % variant, (src[: m.end()] + order + src[m.end():]).encode())
+            jobs.append(("generate --xml (target IDs 100 and 0100, %s)" % variant, "xmlpath", pth))
+    # two target displays with the same peak brightness (L2 blocks are keyed by target_max_pq): a shot carrying an L2
+    # trim for each of them has two candidates for one block - the later one in the document wins, in every process
+    src2 = open(os.path.join(ASSETS, "tests", "cmv4_0_2.xml")).read()
+    m2 = re.search(r"<TargetDisplay>\s*<ID>1</ID>.*?</TargetDisplay>", src2, flags=re.S)
+    if m2:
+        clone = re.sub(r"<ID>1</ID>", "<ID>255</ID>", m2.group(0), count=1)
+        base2 = src2[: m2.end()] + clone + src2[m2.end():]
+        l2s = [mm for mm in re.finditer(r"<Level2 level=\"2\">\s*<TID>1</TID>.*?</Level2>", base2, flags=re.S)]
+        for variant, after in (("after", True), ("before", False)):
+            doc, shift = base2, 0
+            for k, mm in enumerate(l2s):
+                extra = "<Level2 level=\"2\"><TID>255</TID><Trim>0 0 0 %s %s %s 0 0 0</Trim></Level2>" % (0.05 * (k + 1), -0.02 * (k + 1), 0.11 * (k + 1))
+                pos = (mm.end() if after else mm.start()) + shift
+                doc = doc[:pos] + extra + doc[pos:]
+                shift += len(extra)
+            pth = w.write("shared_peak_%s.xml" % variant, doc.encode())
+            jobs.append(("generate --xml (two targets sharing a peak, trims for both, TID 255 %s)" % variant, "xmlpath", pth))
     for f in gens[: (3 if res.tier == "quick" else len(gens))]:
         jobs.append(("generate -j " + f, "genjson", f))
     for cmd in ("convert", "demux", "extract-rpu", "remove", "mux", "inject-rpu", "info", "export"):
@@ -202,7 +229,7 @@ def run(res):
     res.coverage.update({
         "evaluations": nrun,
         "distinct_nontrivial": len(jobs),
-        "rule": "each job run in %d fresh processes (per-process hash seeds by construction; different cwd, HOME, TZ, LANG, RUST_BACKTRACE and extra environment noise); hashes of every output file and the exit code compared across runs; editor configs with 2..5 pairwise-overlapping scene-cut and active-area ranges on the 259-frame sample, the same map content written in a different entry order for every run, compared with the Coq model fed in file order and in key order; editor configs with 3..5 `duplicate` entries inserted at one offset from different sources and several `remove` ranges; generate from every sample XML (several target displays) and generator JSON; convert, demux, extract-rpu, remove, mux, inject-rpu, info, export on the sample streams" % nproc,
+        "rule": "each job run in %d fresh processes (per-process hash seeds by construction; different cwd, HOME, TZ, LANG, RUST_BACKTRACE and extra environment noise); hashes of every output file and the exit code compared across runs; editor configs with 2..5 pairwise-overlapping scene-cut and active-area ranges on the 259-frame sample, the same map content written in a different entry order for every run, compared with the Coq model fed in file order and in key order; editor configs with 3..5 `duplicate` entries inserted at one offset from different sources and several `remove` ranges; generate from every sample XML (several target displays; custom targets sharing every value but their id; two targets sharing a peak with an L2 trim for each in the same shots) and generator JSON; convert, demux, extract-rpu, remove, mux, inject-rpu, info, export on the sample streams" % nproc,
         "cli_runs": nrun, "distinct_results_per_job": distinct, "model_checked": model_checked,
     })
     res.assumptions += ["independence from environment, working directory and fonts is observed by the repeated runs, not proved",
